@@ -265,7 +265,7 @@ PINS = {
     'C20': ['StatsSites', 'AdderSites'],
 }
 # Impl.Table refines Spec (per-key decision code of cache_impl.go): charged to the properties it speaks about
-for _pid in ('C01', 'C03', 'C06', 'C12'):
+for _pid in ('C01', 'C03', 'C06', 'C12', 'C20'):
     if 'OtterVerif.Props.C01Refine' not in PROPS[_pid]['modules']:
         PROPS[_pid]['modules'].append('OtterVerif.Props.C01Refine')
 for _pid in ('C09', 'C10', 'C11'):
